@@ -73,7 +73,8 @@ func sliceContents(or *OblResult, dir string, param string, n int) ([]byte, bool
 	return res, true
 }
 
-// buildReplayTest renders a Go test that calls the real function on the model's inputs.
+// buildReplayTest renders a Go test that calls the real function on the model's inputs and, for a
+// postcondition, evaluates the failed clause (compiled to Go) on the real result.
 func buildReplayTest(or *OblResult, dir string) (src string, pkgDir string, ok bool, why string) {
 	vc := or.Obl.VC
 	if vc.target == nil || or.Res.Model == nil {
@@ -83,8 +84,19 @@ func buildReplayTest(or *OblResult, dir string) (src string, pkgDir string, ok b
 	if fn.Signature.Recv() != nil {
 		return "", "", false, "method receivers are not rebuilt from models"
 	}
+	defer func() {
+		if r := recover(); r != nil {
+			if gu, isGU := r.(goUnsupported); isGU {
+				src, pkgDir, ok, why = "", "", false, "clause not compilable to Go: "+gu.msg
+				return
+			}
+			panic(r)
+		}
+	}()
+	gg := &goGen{vars: map[string]goVar{}, old: map[string]goVar{}, pc: vc.pkg.Contracts, uni: vc.uni, pkg: fn.Pkg.Pkg, specs: map[string]string{}}
 	var args []string
 	var decls []string
+	needBig := false
 	for _, p := range fn.Params {
 		name := "p." + p.Name()
 		switch t := p.Type().Underlying().(type) {
@@ -96,11 +108,15 @@ func buildReplayTest(or *OblResult, dir string) (src string, pkgDir string, ok b
 				}
 				it, _ := intTyOf(t)
 				v = wrapBig(v, it)
-				args = append(args, fmt.Sprintf("%s(%s)", types.TypeString(p.Type(), qualifierFor(fn.Pkg.Pkg)), v.String()))
+				decls = append(decls, fmt.Sprintf("\tvar a_%s %s = %s", p.Name(), types.TypeString(p.Type(), qualifierFor(fn.Pkg.Pkg)), v.String()))
+				args = append(args, "a_"+p.Name())
+				gg.vars[p.Name()] = goVar{"gvAny(a_" + p.Name() + ")", gI}
 				continue
 			}
 			if t.Info()&types.IsBoolean != 0 {
-				args = append(args, strings.TrimSpace(or.Res.Model[quoteSym(name)]))
+				decls = append(decls, fmt.Sprintf("\tvar a_%s = %s", p.Name(), strings.TrimSpace(or.Res.Model[quoteSym(name)])))
+				args = append(args, "a_"+p.Name())
+				gg.vars[p.Name()] = goVar{"a_" + p.Name(), gB}
 				continue
 			}
 			return "", "", false, "parameter type " + p.Type().String() + " not rebuilt"
@@ -114,8 +130,12 @@ func buildReplayTest(or *OblResult, dir string) (src string, pkgDir string, ok b
 			if !ok1 || !ok2 || !ok3 {
 				return "", "", false, "no model value for slice " + p.Name()
 			}
+			v := "a_" + p.Name()
+			gg.vars[p.Name()] = goVar{v, gS}
+			gg.old[p.Name()] = goVar{"old_" + p.Name(), gS}
 			if arr.Sign() == 0 {
-				args = append(args, "[]byte(nil)")
+				decls = append(decls, fmt.Sprintf("\tvar %s []byte\n\told_%s := []byte(nil)", v, p.Name()))
+				args = append(args, v)
 				continue
 			}
 			if ln.Cmp(big.NewInt(1<<20)) > 0 {
@@ -134,21 +154,125 @@ func buildReplayTest(or *OblResult, dir string) (src string, pkgDir string, ok b
 			for _, c := range content {
 				bs = append(bs, fmt.Sprintf("0x%02x", c))
 			}
-			v := "a_" + p.Name()
-			decls = append(decls, fmt.Sprintf("\t%s := make([]byte, %d, %d)\n\tcopy(%s, []byte{%s})", v, n, cp.Int64(), v, strings.Join(bs, ", ")))
+			decls = append(decls, fmt.Sprintf("\t%s := make([]byte, %d, %d)\n\tcopy(%s, []byte{%s})\n\told_%s := append([]byte(nil), %s...)", v, n, cp.Int64(), v, strings.Join(bs, ", "), p.Name(), v))
 			args = append(args, v)
+		case *types.Pointer:
+			if typeKey(t.Elem()) != "big.Int" {
+				return "", "", false, "parameter type " + p.Type().String() + " not rebuilt"
+			}
+			needBig = true
+			ref, _ := modelInt(or.Res.Model[quoteSym(name)])
+			if ref != nil && ref.Sign() == 0 {
+				decls = append(decls, fmt.Sprintf("\tvar a_%s *big.Int", p.Name()))
+			} else {
+				val, ok := modelInt(or.Res.Model[fmt.Sprintf("(select H0.Big.val %s)", quoteSym(name))])
+				if !ok {
+					return "", "", false, "no model value for *big.Int " + p.Name()
+				}
+				decls = append(decls, fmt.Sprintf("\ta_%s, _ := new(big.Int).SetString(%q, 10)\n\told_%s := new(big.Int).Set(a_%s)", p.Name(), val.String(), p.Name(), p.Name()))
+				gg.old[p.Name()] = goVar{"old_" + p.Name(), gI}
+			}
+			args = append(args, "a_"+p.Name())
+			gg.vars[p.Name()] = goVar{"gvBig(a_" + p.Name() + ")", gI}
 		default:
 			return "", "", false, "parameter type " + p.Type().String() + " not rebuilt"
 		}
 	}
+	nres := fn.Signature.Results().Len()
+	gg.nres = nres
+	for i := 0; i < nres; i++ {
+		rt := fn.Signature.Results().At(i).Type()
+		switch u := rt.Underlying().(type) {
+		case *types.Basic:
+			if u.Info()&types.IsInteger != 0 {
+				gg.resK = append(gg.resK, gI)
+			} else if u.Info()&types.IsBoolean != 0 {
+				gg.resK = append(gg.resK, gB)
+			} else {
+				gg.resK = append(gg.resK, gP)
+			}
+		case *types.Slice:
+			if b, ok := u.Elem().Underlying().(*types.Basic); ok && b.Kind() == types.Uint8 {
+				gg.resK = append(gg.resK, gS)
+			} else {
+				gg.resK = append(gg.resK, gP)
+			}
+		case *types.Interface:
+			if types.TypeString(rt, nil) == "error" {
+				gg.resK = append(gg.resK, gE)
+			} else {
+				gg.resK = append(gg.resK, gP)
+			}
+		case *types.Pointer:
+			if typeKey(u.Elem()) == "big.Int" {
+				gg.resK = append(gg.resK, gI)
+				needBig = true
+			} else {
+				gg.resK = append(gg.resK, gP)
+			}
+		default:
+			gg.resK = append(gg.resK, gP)
+		}
+	}
+	// logical variables
+	var ghostDecl []string
+	if or.Obl.FC != nil {
+		for _, gv := range or.Obl.FC.GhostVars {
+			v, ok := modelInt(or.Res.Model[quoteSym("g."+gv.Name)])
+			if !ok {
+				v = big.NewInt(0)
+			}
+			ghostDecl = append(ghostDecl, fmt.Sprintf("\tg_%s := gvS(%q)", gv.Name, v.String()))
+			gg.vars[gv.Name] = goVar{"g_" + gv.Name, gI}
+		}
+	}
+	check := ""
+	if or.Obl.ClauseCE != nil && (or.Obl.Kind == "post") {
+		if or.Obl.FC != nil && or.Obl.FC.Where != nil {
+			w, _ := gg.expr(or.Obl.FC.Where.Expr)
+			gg.vars["where"] = goVar{"(" + w + ")", gB}
+		}
+		// requires must hold for the input to count
+		var pre []string
+		if or.Obl.FC != nil {
+			for _, rq := range or.Obl.FC.Requires {
+				c, _ := gg.expr(rq.Expr)
+				pre = append(pre, c)
+			}
+		}
+		c, _ := gg.expr(or.Obl.ClauseCE)
+		check = ""
+		if len(pre) > 0 {
+			check += fmt.Sprintf("\tif !(%s) {\n\t\tt.Skip(\"GOVC-REPLAY-PRECONDITION-FALSE\")\n\t}\n", strings.Join(pre, " && "))
+		}
+		check += fmt.Sprintf("\tif !(%s) {\n\t\tt.Fatalf(\"GOVC-REPLAY-POST-FAILED: %%s\", %q)\n\t}\n", c, or.Obl.Clause)
+	}
 	var sb strings.Builder
-	fmt.Fprintf(&sb, "package %s\n\nimport \"testing\"\n\n", fn.Pkg.Pkg.Name())
-	fmt.Fprintf(&sb, "// replay of obligation %s\nfunc TestGovcReplay(t *testing.T) {\n", or.Obl.Name)
+	fmt.Fprintf(&sb, "package %s\n\nimport (\n\t\"math/big\"\n\t\"reflect\"\n\t\"testing\"\n)\n\nvar _ = reflect.ValueOf\nvar _ = big.NewInt\n", fn.Pkg.Pkg.Name())
+	sb.WriteString(goPrelude)
+	for _, n := range gg.order {
+		sb.WriteString(gg.specs[n])
+	}
+	_ = needBig
+	fmt.Fprintf(&sb, "\n// replay of obligation %s\nfunc TestGovcReplay(t *testing.T) {\n", or.Obl.Name)
 	sb.WriteString("\tdefer func() {\n\t\tif r := recover(); r != nil {\n\t\t\tt.Fatalf(\"GOVC-REPLAY-PANIC: %v\", r)\n\t\t}\n\t}()\n")
 	for _, d := range decls {
 		sb.WriteString(d + "\n")
 	}
-	nres := fn.Signature.Results().Len()
+	for _, d := range ghostDecl {
+		sb.WriteString(d + "\n")
+	}
+	for n := range gg.old {
+		fmt.Fprintf(&sb, "\t_ = old_%s\n", n)
+	}
+	for _, gv := range ghostDecl {
+		_ = gv
+	}
+	if or.Obl.FC != nil {
+		for _, gv := range or.Obl.FC.GhostVars {
+			fmt.Fprintf(&sb, "\t_ = g_%s\n", gv.Name)
+		}
+	}
 	call := fmt.Sprintf("%s(%s)", fn.Name(), strings.Join(args, ", "))
 	if nres == 0 {
 		fmt.Fprintf(&sb, "\t%s\n", call)
@@ -160,6 +284,7 @@ func buildReplayTest(or *OblResult, dir string) (src string, pkgDir string, ok b
 		fmt.Fprintf(&sb, "\t%s := %s\n", strings.Join(rs, ", "), call)
 		fmt.Fprintf(&sb, "\tt.Logf(\"GOVC-REPLAY-RESULT: %s\", %s)\n", strings.Repeat("%v ", nres), strings.Join(rs, ", "))
 	}
+	sb.WriteString(check)
 	sb.WriteString("}\n")
 	pd := vc.uni.repoDirFor(fn.Pkg.Pkg.Path())
 	return sb.String(), pd, true, ""
@@ -226,6 +351,10 @@ func writeReplay(repo, replayDir, prop, obl, reason string, or *OblResult, dir s
 				switch or.Obl.Kind {
 				case "bounds", "nil", "div", "alloc", "panic", "shift":
 					if failed && strings.Contains(out, "GOVC-REPLAY-PANIC") {
+						reproduced = true
+					}
+				case "post":
+					if failed && (strings.Contains(out, "GOVC-REPLAY-POST-FAILED") || strings.Contains(out, "GOVC-REPLAY-PANIC")) && !strings.Contains(out, "GOVC-SPEC-") {
 						reproduced = true
 					}
 				}
